@@ -13,7 +13,7 @@
     key order ([amap_*]); [to_record_do] iterates the HashMap in an unspecified order, modelled by
     an arbitrary reordering [sh k] of the k-th write (the theorems quantify over every [sh] that
     permutes).  Model only, no proofs in this file. *)
-From RN Require Export Base.Res Codec.Varint Codec.PbWire Codec.BufReader.
+From RN Require Export Base.Res Base.Fs Codec.Varint Codec.PbWire Codec.BufReader.
 Local Open Scope N_scope.
 
 (** * messages *)
@@ -206,9 +206,7 @@ Fixpoint be_bytes (n : nat) (v : N) : list N :=
 Definition be8 (v : N) : list N := be_bytes 8 v.
 Definition of_be (bs : list N) : N := fold_left (fun a b => a * 256 + b) bs 0.
 
-(** seek(off) + write_all(data) on a file that is not truncated; a gap is zero-filled *)
-Definition write_at (f : list N) (off : nat) (data : list N) : list N :=
-  firstn off f ++ repeat 0 (off - length f) ++ data ++ skipn (off + length data) f.
+(** [write_at] (seek + write_all without truncation) is in Base/Fs.v *)
 
 (** the record is written by Writer::write_message: varint(get_size) ++ body *)
 Definition index_record (s : addr_map -> addr_map) (r : raft_index) : list N :=
